@@ -204,6 +204,8 @@ pub mod error;
 pub mod join;
 pub mod prelude;
 pub mod storage;
+#[cfg(specs_verif)]
+pub mod verif;
 pub mod world;
 
 pub use hibitset::BitSet;
